@@ -9,6 +9,7 @@
   than `c` bases strictly between them (the shorter way round on a ring).
 -/
 import ASV.Proofs.ProtoRules
+import ASV.Proofs.Components
 namespace ASV.C03
 open ASV ASV.Rules ASV.Proto ASV.Chains ASV.ChainSweep
 
@@ -46,6 +47,34 @@ theorem cores_are_chains_linear (r : Rec) (hlin : r.circular = false) (c : Int) 
     exact ⟨m, hm, by omega⟩
   · obtain ⟨m, hm, e⟩ := hg.hiAtt
     exact ⟨m, hm, by omega⟩
+
+/-- the chain computation the executable spec (and the driver) uses yields a chain partition, for
+    every relation and every list -/
+theorem spec_components_are_chains {α : Type} (rel : α → α → Bool) (xs : List α) :
+    IsChainPartition (fun a b => rel a b = true) xs (components rel xs) :=
+  components_isChainPartition rel xs
+
+/-- chain partitions are unique: two of them have the same groups (as sets of members) -/
+theorem chains_unique {α : Type} {rel : α → α → Prop} {xs : List α} {G G' : List (List α)}
+    (h : IsChainPartition rel xs G) (h' : IsChainPartition rel xs G') :
+    ∀ g ∈ G, ∃ g' ∈ G', ∀ x, x ∈ g ↔ x ∈ g' :=
+  chain_partition_unique h h'
+
+/-- hence, on a linear record, the groups behind the cores of `find_protoclusters` are exactly the
+    chains `Chains.components (nearB 0 cutoff)` computes from the anchoring genes — the very
+    definition the driver evaluates on the implementation's output — and vice versa -/
+theorem cores_match_spec_chains (r : Rec) (hlin : r.circular = false) (c : Int) (hc : 0 ≤ c)
+    (anchors : List Loc) (hne : anchors ≠ []) (hok : ∀ l ∈ anchors, GeneOK r.len l) :
+    ∃ (groups : List (List Loc)) (cores : List Loc),
+      findCores r c anchors = .ok cores ∧
+      Paired (fun core g => ∃ p, core = Loc.simple p ∧
+        (∀ m ∈ g, p.lo ≤ m.start ∧ m.end ≤ p.hi) ∧ (∃ m ∈ g, m.start = p.lo) ∧ (∃ m ∈ g, m.end = p.hi))
+        cores groups ∧
+      (∀ g ∈ groups, ∃ k ∈ components (nearB 0 c) anchors, ∀ x, x ∈ g ↔ x ∈ k) ∧
+      (∀ k ∈ components (nearB 0 c) anchors, ∃ g ∈ groups, ∀ x, x ∈ k ↔ x ∈ g) := by
+  obtain ⟨groups, cores, hfind, hpart, hpaired⟩ := cores_are_chains_linear r hlin c hc anchors hne hok
+  have hspec := components_isChainPartition (nearB 0 c) anchors
+  exact ⟨groups, cores, hfind, hpaired, chain_partition_unique hpart hspec, chain_partition_unique hspec hpart⟩
 
 /-- **Neighbourhood (linear record).**  The protocluster of a single-span core is that core widened by
     the neighbourhood on both sides, clipped at both record ends: it covers exactly the bases of the
